@@ -165,6 +165,23 @@ class C11(BlockBase):
                     c.meta["_expect_stripped"] = exp
                     c.meta["_k"] = k
                     yield c
+        # the same boundary in a CR LF file (the carriage return is the last character of every line, also of the tag
+        # lines and the wrapper lines); compared on the lines stripped of blanks and carriage returns
+        shapes_cr = ["{", "}", "  code", "\tx", "é", "x  "]
+        for k in range(0, quick(tier, 3, 4) + 1):
+            for body in itertools.product(shapes_cr, repeat=k):
+                for ind in ("", "  "):
+                    lines = ["pre", ind + gen.U_OPEN] + [ind + b for b in body] + [ind + gen.U_CLOSE, "post"]
+                    src = "\r\n".join(lines) + "\r\n"
+                    c = Case("k-boundary-crlf", [req("clean", src)], {"replay": True, "src": src, "ds": "<", "de": ">", "cfg": proto.DEFAULT_CFG.to_json()}, key=src)
+                    if k >= 2:
+                        exp = ["pre"] + [b.strip(" \t") for b in body[1:-1]] + ["post"]
+                    else:
+                        exp = [l.strip(" \t") for l in lines]
+                    c.meta["_expect_stripped"] = exp
+                    c.meta["_k"] = k
+                    c.meta["_crlf"] = True
+                    yield c
         one = "a " + gen.U_OPEN + " b " + gen.U_CLOSE + " c\n"
         c = Case("one-line", [req("clean", one)], {"replay": True, "src": one, "ds": "<", "de": ">", "cfg": proto.DEFAULT_CFG.to_json()}, key=one)
         c.meta["_expect_stripped"] = [one.strip("\n")]
@@ -176,6 +193,8 @@ class C11(BlockBase):
         if k != "ok":
             return {"fail": "panic", "detail": v, "nontrivial": True, "tags": ["panic"]}
         got = [l.strip(" \t") for l in nonblank(out_lines(unhx(v)))]
+        if case.meta.get("_crlf"):
+            got = [l.strip(" \t\r") for l in out_lines(unhx(v)) if l.strip(" \t\r")]
         if "_expect_stripped" in case.meta:
             exp = case.meta["_expect_stripped"]
             tags = ["k=%d" % case.meta["_k"]]
@@ -257,18 +276,7 @@ class C12(BlockBase):
             items = g.doc()
             if items and isinstance(items[0], gen.El):
                 items.insert(0, gen.Line("head#0"))
-            for e in gen.all_elements(items):
-                if not e.unwrap:
-                    continue
-                lines = [ch for ch in e.children if isinstance(ch, gen.Line) and ch.inline is None and ch.text and ch.text.strip(" \t")]
-                for k, ch in enumerate(lines):
-                    body = ch.text.lstrip(" \t")
-                    lead = ch.text[:len(ch.text) - len(body)]
-                    if k == 0 or rng.random() < 0.3:
-                        body = rng.choice(["\u3000", "\u00a0", "\u2003", "\x0b", "\x0c", "\u3000\u3000 "]) + body
-                    if k > 0 and rng.random() < 0.6:
-                        lead = lead + g.unit * rng.choice([1, 2])
-                    ch.text = lead + body
+            gen.unicode_space_lines(items, rng, g.unit)
             yield self.mk_items(items, gen.Spelling(), rng.random() < 0.8, "unicode-space-indent")
 
     def first_line_unwrap(self, lay):
@@ -639,6 +647,18 @@ class C15(ListBase):
         for c in self.docs(rng, tier, quick(tier, 600, 20000)):
             m = c.meta
             yield self.mk(m["src"].replace("\n", "\r\n"), m["ds"], m["de"], Cfg.from_json(m["cfg"]), "ast-crlf")
+        # carriage returns that are not part of a CR LF pair: only LF ends a line - files with CR-only line ends, files
+        # in which some line ends are CR, LF files with stray CRs inside lines
+        for i, c in enumerate(self.docs(rng, tier, quick(tier, 600, 20000))):
+            m = c.meta
+            src = m["src"]
+            if i % 3 == 0:
+                src = src.replace("\n", "\r")
+            elif i % 3 == 1:
+                src = "".join(("\r" if ch == "\n" and rng.random() < 0.4 else ch) for ch in src)
+            else:
+                src = "".join((ch + "\r" if ch not in "\n\r" and rng.random() < 0.08 else ch) for ch in src)
+            yield self.mk(src, m["ds"], m["de"], Cfg.from_json(m["cfg"]), "lone-cr")
 
     def oracle(self, case, impl, spec):
         o, err = self.unpack(impl)
@@ -1211,7 +1231,7 @@ class C20(Base):
     extra_trusted = ["C20: clap's parsing, atty, the file system, pipes and the TZ database are exercised by running the real binary, not proved"]
     rule = ("one case = one option combination (mode clean/--list/--list-all x --list-json, delimiters, tag names, offset, current time, "
             "targets via flags / config file / both / none) on one AST document: the real binary is run with input from --filename and from "
-            "stdin, output to stdout, to --output and to --output = input file, under TZ in {UTC, Asia/Tokyo, America/Los_Angeles, unset}; "
+            "stdin, output to stdout, to --output, to --output = input file and to --output = target config file, under TZ in {UTC, Asia/Tokyo, America/Los_Angeles, unset}; "
             "all results must be identical and equal to the library result for the corresponding configuration (also compared with the "
             "model); non-trivial = the document has a ready element and the run is not with all defaults")
 
@@ -1366,6 +1386,10 @@ class C20(Base):
             elif route_out == "inplace":
                 outp = inp
                 args += ["--output", outp]
+            elif route_out == "config":
+                # the result goes to the file the targets came from: it must have been read before it is truncated
+                outp = os.path.join(td, "targets.txt")
+                args += ["--output", outp]
             env = dict(os.environ)
             env.pop("TZ", None)
             if tz:
@@ -1397,6 +1421,8 @@ class C20(Base):
         routes = [("file", "stdout", "UTC"), ("stdin", "stdout", "Asia/Tokyo"), ("file", "output", "America/Los_Angeles"), ("stdin", "output", None),
                   ("file", "inplace", "UTC"), ("stdin", "stdout", "America/Los_Angeles")]
         tags = ["mode:" + m["mode"] + (":json" if m["json"] else "")]
+        if m["file"] is not None:
+            routes = routes + [("file", "config", "UTC"), ("stdin", "config", None)]
         for (ri, ro, tz) in routes:
             rc, res, extra_stdout, err = self.run_binary(m, ri, ro, tz)
             if rc != 0:
